@@ -65,6 +65,18 @@ typedef struct
 
 PIXMAN_DEFINE_THREAD_LOCAL (cache_t, fast_path_cache)
 
+#ifdef PIXMAN_VERIF
+/* Verification hooks (compiled only with -DPIXMAN_VERIF): report which
+ * implementation / routine was selected.  Used for coverage evidence only.
+ */
+void (*pixman_verif_trace_composite) (pixman_implementation_t *imp,
+				      pixman_composite_func_t  func,
+				      const pixman_fast_path_t *key) = NULL;
+void (*pixman_verif_trace_iter) (pixman_implementation_t  *imp,
+				 const pixman_iter_info_t *info,
+				 iter_flags_t              iter_flags) = NULL;
+#endif
+
 static void
 dummy_composite_rect (pixman_implementation_t *imp,
 		      pixman_composite_info_t *info)
@@ -162,6 +174,22 @@ _pixman_implementation_lookup_composite (pixman_implementation_t  *toplevel,
     return;
 
 update_cache:
+#ifdef PIXMAN_VERIF
+    if (pixman_verif_trace_composite)
+    {
+	pixman_fast_path_t key;
+
+	key.op = op;
+	key.src_format = src_format;
+	key.src_flags = src_flags;
+	key.mask_format = mask_format;
+	key.mask_flags = mask_flags;
+	key.dest_format = dest_format;
+	key.dest_flags = dest_flags;
+	key.func = *out_func;
+	pixman_verif_trace_composite (*out_imp, *out_func, &key);
+    }
+#endif
     if (i)
     {
 	while (i--)
@@ -337,6 +365,10 @@ _pixman_implementation_iter_init (pixman_implementation_t *imp,
                 {
                     iter->get_scanline = info->get_scanline;
                     iter->write_back = info->write_back;
+#ifdef PIXMAN_VERIF
+		    if (pixman_verif_trace_iter)
+			pixman_verif_trace_iter (imp, info, iter_flags);
+#endif
 
                     if (info->initializer)
                         info->initializer (iter, info);
